@@ -680,7 +680,7 @@ where
 	let index = sizes.len();
 	sizes.push(Size::Width(0));
 
-	let mut size = Size::Width(2 + options.object_begin + options.object_end);
+	let mut size = Size::Width(2 + options.array_begin + options.array_end);
 
 	let mut len = 0;
 	for (i, item) in items.into_iter().enumerate() {
@@ -692,6 +692,10 @@ where
 
 		size.add(item.pre_compute_size(options, sizes));
 		len += 1
+	}
+
+	if len == 0 {
+		size = Size::Width(2 + options.array_empty)
 	}
 
 	let size = match size {
@@ -753,6 +757,10 @@ where
 		));
 		size.add(value.pre_compute_size(options, sizes));
 		len += 1;
+	}
+
+	if len == 0 {
+		size = Size::Width(2 + options.object_empty)
 	}
 
 	let size = match size {
